@@ -85,7 +85,7 @@ func (t *acqTable) acquires(f *ssa.Function, depth int) map[lockAcq]bool {
 		}
 		switch calleeName(cc) {
 		case "(*sync.Mutex).Lock", "(*sync.RWMutex).Lock", "(*sync.RWMutex).RLock":
-			if p, path, ok := paramPath(describe(cc.Args[0])); ok {
+			if p, path, ok := paramPath(describe(refArgs(cc)[0])); ok {
 				out[lockAcq{p, path}] = true
 			}
 			return
@@ -137,7 +137,7 @@ func noReentrantLocking(r *R, pkgFrag string) {
 			if strings.HasPrefix(cn, "(*sync.") {
 				// a direct second Lock of a held mutex
 				if strings.HasSuffix(cn, ".Lock") || strings.HasSuffix(cn, ".RLock") {
-					if t := describe(c.Common().Args[0]); ls[ins][t] {
+					if t := describe(refArgs(c.Common())[0]); ls[ins][t] {
 						bad[t] = append(bad[t], "locks it again directly at "+r.rel(c.Pos()))
 					}
 				}
